@@ -46,6 +46,11 @@ def check(report, tier, seed):
     cases = make_cases(rng, n, cycles)
     for i in range(n // 5):
         cases["d%d" % i] = {"hcl": deep_program(rng), "yo": gen.yo_image(rng, 10 * cycles + 40), "cycles": cycles, "flags": "-", "timeout": 9999}
+    # a pc that stays put or creeps while the data port stores at, inside, just below and just above the
+    # fetched bytes (and a data address from a tiny set): the built-in outputs must follow memory
+    import histgen
+    for i in range(n // 8):
+        cases["m%d" % i] = {"hcl": histgen.mem_program(rng, True), "yo": gen.yo_image(rng, 120), "cycles": 3 * cycles, "flags": "-", "timeout": 9999}
     impl, model, stats = simcheck.run_sim_cases(report, cases, key_prefix="settle")
     # schedules under fresh hash seeds
     bcases = {}
